@@ -18,6 +18,7 @@ import json
 import os
 import shutil
 import stat
+import subprocess
 import sys
 import time
 
@@ -28,14 +29,15 @@ from .common import Evidence
 from .harness import CaseFailure
 
 PROP = "C16"
-RULE = ("fault plan = (step, k, kind); the grid of 11 steps x 22 kinds is enumerated completely; non-trivial = the fault "
+RULE = ("fault plan = (step, k, kind); the grid of 11 steps x 29 kinds is enumerated completely; non-trivial = the fault "
         "actually fired (the stand-in logged the injection); all plans are distinct. Generated part: sequences of 2-3 "
         "faults on successive launches of the co-process")
 
 STEPS = [("before_ready", 1), ("after_ready", 1)] + [(s, k) for s in ("on_request", "before_reply", "mid_reply") for k in (1, 2, 3)]
 KINDS = ["exit0", "exit1", "sigkill", "close_stdin", "close_stdout", "close_both"] + ["short_header:%d" % n for n in range(1, 8)] + \
         ["wrong_version", "wrong_type", "len_over_max", "payload_short_then_eof", "payload_longer", "bad_tag", "array_count_huge",
-         "string_len_past_end", "ffi_error_empty", "ffi_error_1mb"]
+         "string_len_past_end", "ffi_error_empty", "ffi_error_1mb", "string_len_wrap", "array_inner_string_wrap", "array_nested_deep",
+         "ffi_error_300", "ffi_error_20000", "array_count_huge_one_elem"]
 
 WORKLOAD = '''extern fn labs(x: int) -> int
 fn main() -> int {
@@ -277,6 +279,28 @@ def main(tier):
                 print("C16: plan %s: %s" % (json.dumps(plan), detail))
                 common.report_violation(PROP, p)
                 nviol += 1
+    # the reply decoder on hostile bytes, in process (rapidcheck, ASan/UBSan)
+    probe = common.build_probe("cop_probe", "asan")
+    params = "seed=%d max_success=%d" % (common.seed() + 1, 20000 if tier == "quick" else 1000000)
+    pr = subprocess.run([probe, "hostile"], capture_output=True, text=True, env=dict(os.environ, RC_PARAMS=params, ASAN_OPTIONS="detect_leaks=0"))
+    summ = None
+    pfails = []
+    for line in pr.stdout.splitlines():
+        if line.startswith("SUMMARY "):
+            summ = json.loads(line[8:])
+        elif line.startswith("FAIL "):
+            pfails.append(line[5:])
+    if summ is None or pfails or pr.returncode != 0:
+        what = pfails[0] if pfails else "probe died: " + pr.stderr[-1500:]
+        p = common.save_replay(PROP, "decoder_seed%d.txt" % common.seed(), "cop_probe hostile RC_PARAMS='%s'\n%s\n" % (params, what))
+        print("C16: reply decoder on hostile bytes: %s" % what[:500])
+        common.report_violation(PROP, p)
+        nviol += 1
+    if summ:
+        ev.evaluations += summ["evaluations"]
+        ev.nontrivial_extra += summ["distinct_nontrivial"]
+        for k, v in summ["classes"].items():
+            ev.cls("decoder_" + k, v)
     # sequences of faults across relaunches (generated)
     total = 160 if tier == "quick" else 3000
     results = harness.run_workers("pbt.c16_cop_faults", tier, total)
